@@ -70,7 +70,7 @@ fn generate(rng: &mut Rng) -> C14Sc {
     let secret: Option<Vec<u8>> = match rng.below(3) {
         0 => None,
         1 => Some(if rng.chance(1, 3) { b" s3cret with spaces\n".to_vec() } else { b"s3cret".to_vec() }),
-        _ => Some(b"a-much-longer-operator-secret-0123456789".to_vec()),
+        _ => Some(if rng.chance(1, 3) { b"a-secret-of-more-than-one-hmac-block-0123456789abcdef0123456789abcdef-tail-A".to_vec() } else { b"a-much-longer-operator-secret-0123456789".to_vec() }),
     };
     // a third of the application runs get their secret the way an operator gives it: through the environment or the
     // secret file and the application's own configuration loader
@@ -148,7 +148,17 @@ fn generate(rng: &mut Rng) -> C14Sc {
                 let id = Identity { name: "CookieIdent".into(), uuid: 0xc00c1e, props: vec![] };
                 let body = cookie_json((wall.base_s + *think_s).saturating_sub(*age_s), &effective, &id, Some("t0"));
                 // (with no secret configured a cookie under the empty key - or any key - means nothing)
-                let sec = if *right_secret { secret.clone().unwrap_or_else(|| if rng.chance(1, 2) { vec![] } else { b"none".to_vec() }) } else { b"another-secret".to_vec() };
+                let sec = if *right_secret { secret.clone().unwrap_or_else(|| if rng.chance(1, 2) { vec![] } else { b"none".to_vec() }) } else {
+                    // another secret; for long secrets one that shares the whole first HMAC block with the configured one
+                    match &secret {
+                        Some(sct) if sct.len() > 64 && rng.chance(1, 2) => {
+                            let mut o = sct[..64].to_vec();
+                            o.extend_from_slice(b"-but-another-tail");
+                            o
+                        }
+                        _ => b"another-secret".to_vec(),
+                    }
+                };
                 spec.auth_cookie = Some(signed_cookie(&sec, &body));
             }
             Role::Silent => {
@@ -182,6 +192,10 @@ fn generate(rng: &mut Rng) -> C14Sc {
         }
         spec.close_on_end_ns = None;
         spec.coalesce = rng.chance(1, 2);
+        // whatever locale a client reports, the deadline holds
+        if rng.chance(1, 3) {
+            spec.locale = super::c03::gen_locale(rng);
+        }
         if proxy.is_some() {
             let src: std::net::SocketAddr = effective.parse().unwrap();
             let dst: std::net::SocketAddr = "192.0.2.200:25565".parse().unwrap();
